@@ -212,6 +212,9 @@ func (s *caseSpec) record(o *outcome, tables []ceremony.VerifC17Shard) {
 	if dups > 0 {
 		evid.Count("arrival.with-conflicting-duplicates")
 	}
+	if dups > 1 {
+		evid.Count("arrival.conflicting-duplicates-in-opposite-orders")
+	}
 	if fmt.Sprint(s.Order1) != fmt.Sprint(s.Order2) {
 		evid.Count("arrival.orders-differ")
 	}
@@ -549,6 +552,32 @@ func conflictingDuplicate(m message, variant byte) message {
 	return d
 }
 
+// opposeDuplicates makes the conflicting duplicates of a (sender, type) group
+// arrive in the second order in the reverse of their relative order in the first
+// one (originals stay first in both).
+func (s *caseSpec) opposeDuplicates() {
+	type key struct {
+		from int
+		typ  types.TxType
+	}
+	inFirst := map[key][]int{}
+	for _, mi := range s.Order1 {
+		if m := s.Msgs[mi]; m.Dup {
+			k := key{m.From, m.Type}
+			inFirst[k] = append(inFirst[k], mi)
+		}
+	}
+	next := map[key]int{}
+	for pos, mi := range s.Order2 {
+		if m := s.Msgs[mi]; m.Dup {
+			k := key{m.From, m.Type}
+			seq := inFirst[k]
+			s.Order2[pos] = seq[len(seq)-1-next[k]]
+			next[k]++
+		}
+	}
+}
+
 func drawSplit(t *rapid.T, label string, n int) []int {
 	if n == 0 {
 		return []int{0}
@@ -562,7 +591,7 @@ func drawSplit(t *rapid.T, label string, n int) []int {
 }
 
 func drawArrival(t *rapid.T, s *caseSpec) {
-	if len(s.Msgs) > 0 && pick(t, "duplicates", 75, 25) == 1 {
+	if len(s.Msgs) > 0 && pick(t, "duplicates", 70, 30) == 1 {
 		var answerMsgs []int
 		for i, m := range s.Msgs {
 			if m.Type != types.EvidenceTx {
@@ -588,6 +617,7 @@ func drawArrival(t *rapid.T, s *caseSpec) {
 	} else {
 		s.Order2 = validOrder(s, rapid.Permutation(idx).Draw(t, "order2"))
 	}
+	s.opposeDuplicates()
 	s.Split2 = drawSplit(t, "split2", len(idx))
 	s.RestartK = rapid.IntRange(0, len(s.Split1)).Draw(t, "restartAfterBlocks")
 	s.Zone = rapid.SampledFrom([]int{14 * 3600, -12 * 3600, 5*3600 + 45*60, 9 * 3600, -3*3600 - 30*60}).Draw(t, "zone")
